@@ -281,10 +281,10 @@ def _check_value(prog, rep, f, K, outer, inner, env, repv, vlist, stray, gv, asg
     for blk, level in ((outer.body, "env"), (inner.body, "rep")):
         for s in blk:
             if isinstance(s, ast.Assign) and isinstance(s.targets[0], ast.Name) and isinstance(s.value, ast.Call) and isinstance(s.value.func, ast.Attribute) \
-                    and s.value.func.attr == "multivariate_normal":
+                    and s.value.func.attr in ("multivariate_normal", "normal", "standard_normal"):
                 draws[s.targets[0].id] = (s.value, level)
     pre_draws = [s for s in body if isinstance(s, ast.Assign) and isinstance(s.value, ast.Call) and isinstance(s.value.func, ast.Attribute)
-                 and s.value.func.attr == "multivariate_normal"]
+                 and s.value.func.attr in ("multivariate_normal", "normal", "standard_normal")]
     if pre_draws:
         rep.violate(R, construct, "an effect is drawn once outside the loops (%s): every environment / replicate shares it" % dump(pre_draws[0].targets[0]), where(f, pre_draws[0]))
         good = False
@@ -342,6 +342,32 @@ def _check_value(prog, rep, f, K, outer, inner, env, repv, vlist, stray, gv, asg
             rep.violate(R, construct, "effect %s is drawn from %s, not from the protocol's generator self.rng" % (d, gen), where(f, call), "self.rng", gen)
             good = False
         mean, cov, size = spec(call)
+        if call.func.attr == "normal":
+            kws_n, _ = kwargs_of(call)
+            mean = call.args[0] if call.args else kws_n.get("loc")
+            cov = call.args[1] if len(call.args) > 1 else kws_n.get("scale")
+            size = call.args[2] if len(call.args) > 2 else kws_n.get("size")
+            sc = _resolve(cov, asg) if cov is not None else None
+            sct = _strip(dump(sc)) if sc is not None else ""
+            direct = [v for v in VARS if sct in ("self.%s" % v, "self._%s" % v)]
+            rooted = [v for v in VARS if sct in ("numpy.sqrt(self.%s)" % v, "numpy.sqrt(self._%s)" % v, "self.%s**0.5" % v)]
+            if direct:
+                rep.violate(R, construct, "effect %s is drawn with normal(mean, self.%s): the scale of normal() is a standard deviation, so the realised variance is the "
+                            "square of the requested one" % (d, direct[0]), where(f, call), "scale = numpy.sqrt(self.%s)" % direct[0], dump(cov)[:40])
+                good = False
+                kinds[d] = (level, direct[0], (_strip(dump(size)).strip("()").split(",")[0] if size is not None else None))
+                continue
+            if not rooted:
+                rep.unrec(R, construct, "scale of %s: %s" % (d, sct[:50]))
+                good = False
+                continue
+            m = _resolve(mean, asg) if mean is not None else None
+            mt = _strip(dump(m)) if m is not None else "0.0"
+            if not (mt in ("0", "0.0") or mt.startswith(("numpy.zeros(", "numpy.full(len(self.")) and ",0.0" in mt + ",0.0"):
+                rep.unrec(R, construct, "mean of %s: %s" % (d, mt[:50]))
+                good = False
+            kinds[d] = (level, rooted[0], (_strip(dump(size)).strip("()").split(",")[0] if size is not None else None))
+            continue
         if mean is None or cov is None:
             rep.unrec(R, construct, "draw %s without (mean, cov)" % d)
             good = False
@@ -660,7 +686,22 @@ def check_estimate(prog, rep):
         txt = _strip(dump(store))
         masks = [n.id for n in ast.walk(store) if isinstance(n, ast.Name) and n.id in masg and isinstance(masg[n.id][0], ast.Call)
                  and prog.dotted(f.module, masg[n.id][0].func) in ("numpy.isin", "numpy.in1d")]
-        if len(set(masks)) >= 2:
+        sentinel = None
+        for n in ast.walk(ast.Module(body=main, type_ignores=[])):
+            if isinstance(n, ast.Call) and isinstance(n.func, ast.Attribute) and n.func.attr == "get" and len(n.args) == 2 and isinstance(n.args[1], (ast.Constant, ast.UnaryOp)):
+                try:
+                    val = ast.literal_eval(n.args[1])
+                except Exception:
+                    val = None
+                if isinstance(val, int) and not isinstance(val, bool):
+                    sentinel = (n, val)
+        src_ix = [x.id for x in ast.walk(store.value) if isinstance(x, ast.Name)]
+        if sentinel is not None and not any(isinstance(n, ast.Compare) and any(isinstance(c, (ast.Constant, ast.UnaryOp)) for c in [n.left] + n.comparators)
+                                            and any(isinstance(x, ast.Name) and x.id in src_ix for x in ast.walk(n)) for n in ast.walk(ast.Module(body=main, type_ignores=[]))):
+            rep.violate(R, c2, "taxa without a phenotype record are looked up with the default index %d and gathered unmasked: numpy reads %d as a valid row, so an "
+                               "unphenotyped taxon receives another taxon's mean instead of NaN" % (sentinel[1], sentinel[1]), where(f, store),
+                        "rows of absent taxa left NaN", dump(store)[:70])
+        elif len(set(masks)) >= 2:
             rep.violate(R, c2, "rows are transferred between two membership masks (%s): a boolean mask pairs the k-th selected genotype row with the k-th selected "
                                "aggregate row, i.e. by POSITION in two differently ordered arrays (genotype order vs sorted group order), not by taxon name"
                         % ", ".join(sorted(set(masks))), where(f, store), "row i <- aggregate row looked up by the name of taxon i", dump(store)[:70])
